@@ -102,82 +102,36 @@ func Bin(op string, a, b *Term) *Term {
 		panic(fmt.Sprintf("width mismatch %s %d %d", op, a.W, b.W))
 	}
 	if a.IsConst() && b.IsConst() {
-		x, y := a.C, b.C
-		var r uint64
-		switch op {
-		case "bvadd":
-			r = x + y
-		case "bvsub":
-			r = x - y
-		case "bvmul":
-			r = x * y
-		case "bvand":
-			r = x & y
-		case "bvor":
-			r = x | y
-		case "bvxor":
-			r = x ^ y
-		case "bvshl":
-			if y >= uint64(w) {
-				r = 0
-			} else {
-				r = x << y
-			}
-		case "bvlshr":
-			if y >= uint64(w) {
-				r = 0
-			} else {
-				r = x >> y
-			}
-		case "bvashr":
-			s := sext64(x, w)
-			if y >= uint64(w) {
-				if s < 0 {
-					r = ^uint64(0)
-				} else {
-					r = 0
-				}
-			} else {
-				r = uint64(s >> y)
-			}
-		case "bvudiv":
-			if y == 0 {
-				r = mask(w)
-			} else {
-				r = x / y
-			}
-		case "bvurem":
-			if y == 0 {
-				r = x
-			} else {
-				r = x % y
-			}
-		case "bvsdiv":
-			sx, sy := sext64(x, w), sext64(y, w)
-			if sy == 0 {
-				if sx < 0 {
-					r = 1
-				} else {
-					r = mask(w)
-				}
-			} else if sy == -1 {
-				r = uint64(-sx)
-			} else {
-				r = uint64(sx / sy)
-			}
-		case "bvsrem":
-			sx, sy := sext64(x, w), sext64(y, w)
-			if sy == 0 {
-				r = x
-			} else if sy == -1 {
-				r = 0
-			} else {
-				r = uint64(sx % sy)
-			}
-		default:
-			panic("binop " + op)
+		return Const(w, foldBin(op, w, a.C, b.C))
+	}
+	// x - c  ==>  x + (-c);  (x + c1) + c2  ==>  x + (c1+c2)   (modular arithmetic: always valid)
+	if op == "bvsub" && b.IsConst() && !a.IsConst() {
+		return Bin("bvadd", a, Const(w, -b.C))
+	}
+	if op == "bvsub" && !a.IsConst() && !b.IsConst() {
+		// (x + c1) - (y + c2)  ==>  (x - y) + (c1 - c2);  x - x ==> 0
+		ra, ca := a, uint64(0)
+		if a.Op == "bvadd" && a.Args[1].IsConst() {
+			ra, ca = a.Args[0], a.Args[1].C
 		}
-		return Const(w, r)
+		rb, cb := b, uint64(0)
+		if b.Op == "bvadd" && b.Args[1].IsConst() {
+			rb, cb = b.Args[0], b.Args[1].C
+		}
+		if ra == rb {
+			return Const(w, ca-cb)
+		}
+		if ra != a || rb != b {
+			return Bin("bvadd", Bin("bvsub", ra, rb), Const(w, ca-cb))
+		}
+	}
+	if op == "bvadd" {
+		if a.IsConst() && !b.IsConst() {
+			a, b = b, a
+		}
+		if b.IsConst() && a.Op == "bvadd" && a.Args[1].IsConst() {
+			return Bin("bvadd", a.Args[0], Const(w, a.Args[1].C+b.C))
+		}
 	}
 	// identities
 	switch op {
@@ -229,30 +183,7 @@ func Cmp(op string, a, b *Term) *Term {
 		panic(fmt.Sprintf("cmp width mismatch %s %d %d", op, a.W, b.W))
 	}
 	if a.IsConst() && b.IsConst() {
-		x, y := a.C, b.C
-		sx, sy := sext64(x, a.W), sext64(y, a.W)
-		var r bool
-		switch op {
-		case "=":
-			r = x == y
-		case "bvult":
-			r = x < y
-		case "bvule":
-			r = x <= y
-		case "bvugt":
-			r = x > y
-		case "bvuge":
-			r = x >= y
-		case "bvslt":
-			r = sx < sy
-		case "bvsle":
-			r = sx <= sy
-		case "bvsgt":
-			r = sx > sy
-		case "bvsge":
-			r = sx >= sy
-		}
-		return Bool(r)
+		return Bool(foldCmp(op, a.W, a.C, b.C))
 	}
 	if a == b {
 		switch op {
@@ -260,6 +191,25 @@ func Cmp(op string, a, b *Term) *Term {
 			return Bool(true)
 		default:
 			return Bool(false)
+		}
+	}
+	if op == "=" && a.W > 0 {
+		// k = (A - B) + c  ==>  A = B + (k - c)   (modular arithmetic: always valid)
+		k, d := a, b
+		if b.IsConst() {
+			k, d = b, a
+		}
+		if k.IsConst() {
+			c := uint64(0)
+			if d.Op == "bvadd" && d.Args[1].IsConst() {
+				c, d = d.Args[1].C, d.Args[0]
+			}
+			if d.Op == "bvsub" {
+				return Cmp("=", d.Args[0], Bin("bvadd", d.Args[1], Const(a.W, k.C-c)))
+			}
+			if c != 0 {
+				return Cmp("=", d, Const(a.W, k.C-c))
+			}
 		}
 	}
 	if op == "=" && a.id > b.id {
@@ -488,4 +438,111 @@ func (t *Term) String() string {
 		return fmt.Sprintf("(%s %s)", t.Name, strings.Join(as, " "))
 	}
 	return fmt.Sprintf("(%s %s)", t.Op, strings.Join(as, " "))
+}
+
+// foldBin is the concrete semantics of a bit-vector binary operator (SMT-LIB
+// semantics for division by zero), shared by constant folding and by the
+// model evaluator.
+func foldBin(op string, w int, x, y uint64) uint64 {
+	var r uint64
+	switch op {
+	case "bvadd":
+		r = x + y
+	case "bvsub":
+		r = x - y
+	case "bvmul":
+		r = x * y
+	case "bvand":
+		r = x & y
+	case "bvor":
+		r = x | y
+	case "bvxor":
+		r = x ^ y
+	case "bvshl":
+		if y >= uint64(w) {
+			r = 0
+		} else {
+			r = x << y
+		}
+	case "bvlshr":
+		if y >= uint64(w) {
+			r = 0
+		} else {
+			r = x >> y
+		}
+	case "bvashr":
+		s := sext64(x, w)
+		if y >= uint64(w) {
+			if s < 0 {
+				r = ^uint64(0)
+			} else {
+				r = 0
+			}
+		} else {
+			r = uint64(s >> y)
+		}
+	case "bvudiv":
+		if y == 0 {
+			r = mask(w)
+		} else {
+			r = x / y
+		}
+	case "bvurem":
+		if y == 0 {
+			r = x
+		} else {
+			r = x % y
+		}
+	case "bvsdiv":
+		sx, sy := sext64(x, w), sext64(y, w)
+		if sy == 0 {
+			if sx < 0 {
+				r = 1
+			} else {
+				r = mask(w)
+			}
+		} else if sy == -1 {
+			r = uint64(-sx)
+		} else {
+			r = uint64(sx / sy)
+		}
+	case "bvsrem":
+		sx, sy := sext64(x, w), sext64(y, w)
+		if sy == 0 {
+			r = x
+		} else if sy == -1 {
+			r = 0
+		} else {
+			r = uint64(sx % sy)
+		}
+	default:
+		panic("binop " + op)
+	}
+	return r & mask(w)
+}
+
+func foldCmp(op string, w int, x, y uint64) bool {
+	sx, sy := sext64(x, w), sext64(y, w)
+	var r bool
+	switch op {
+	case "=":
+		r = x == y
+	case "bvult":
+		r = x < y
+	case "bvule":
+		r = x <= y
+	case "bvugt":
+		r = x > y
+	case "bvuge":
+		r = x >= y
+	case "bvslt":
+		r = sx < sy
+	case "bvsle":
+		r = sx <= sy
+	case "bvsgt":
+		r = sx > sy
+	case "bvsge":
+		r = sx >= sy
+	}
+	return r
 }
